@@ -7,4 +7,9 @@ ReadSizes = {2, 45, 100}
 MaxPuts = 5
 INIT Init
 NEXT Next
+INVARIANT I_Ledger
+INVARIANT I_NoViol
+INVARIANT I_Contig
+INVARIANT I_ErrLast
+INVARIANT I_NoStall
 CHECK_DEADLOCK FALSE
